@@ -160,8 +160,8 @@ Definition inv_b (s : st) : bool :=
      | Some (PClear, _) => negb (s1 s || s2 s)
      end
   && match fl s, cp s with
-     | Some (_, true), CClose1 => true
-     | Some (_, true), CClose2 => true
+     | Some (_, true), CClose1 => cl1 s
+     | Some (_, true), CClose2 => cl2 s
      | Some (_, true), _ => false
      | _, _ => true
      end
